@@ -286,6 +286,50 @@ def scaling_oracle(ctx, spec, V, rng):
         ctx.count("scaling_points")
 
 
+def division_at_the_last_grid_time(ctx):
+    """a division that the volume model reports exactly at the last requested time (and, as controls, inside the window and
+    not at all): the run ends there, flagged as divided."""
+    from bioscrape.types import Model
+    from bioscrape.simulator import py_simulate_model
+    from bioscrape.types import StochasticTimeThresholdVolume
+    from bioscrape.random import py_seed_random
+    import warnings
+
+    def model():
+        return Model(species=["X"], parameters=[("kb", 20.0), ("kd", 1.0)], reactions=[([], ["X"], "massaction", {"k": "kb"}), (["X"], [], "massaction", {"k": "kd"})],
+                     initial_condition_dict={"X": 10})
+    for label, cycle, dt, tend, seed in (("interior", 5.0, 0.25, 10.0, 11), ("interior", 7.3, 0.5, 10.0, 12), ("none", 25.0, 0.25, 10.0, 13),
+                                         ("last step", 10.0, 0.25, 10.0, 14), ("last step", 8.0, 0.5, 8.0, 15), ("last step", 5.9, 0.125, 6.0, 16)):
+        for kw in (dict(), dict(safe=True), dict(delay=True)):
+            case = {"scenario": "division reported at the last grid time" if label == "last step" else "division " + label, "cycle": cycle, "dt": dt, "end": tend, "seed": seed, "options": kw}
+            ctx.begin_case(case)
+            T = np.arange(0, tend + dt / 2, dt)
+            vol = StochasticTimeThresholdVolume(cycle, 2.0, 0.0)
+            vol.py_initialize(np.array([10.0]), np.array([20.0, 1.0]), 0.0, 1.0)
+            # the first tick at which the volume model reports division (ticks are the grid times: dt is a power of two)
+            g, V, tdiv = LN2 / cycle, 1.0, None
+            for k in range(1, len(T)):
+                V = V * math.exp(g * dt)
+                if vol.py_cell_divided(np.zeros(1), np.zeros(2), float(T[k]), V, dt):
+                    tdiv = float(T[k])
+                    break
+            py_seed_random(seed)
+            with warnings.catch_warnings():
+                warnings.simplefilter("ignore")
+                res = py_simulate_model(T.copy(), Model=model(), stochastic=True, volume=vol, return_dataframe=False, **kw)
+            ctx.evaluated()
+            divided, tlast = bool(res.py_cell_divided()), float(res.py_get_timepoints()[-1])
+            ok = (divided and tlast == tdiv) if tdiv is not None else ((not divided) and tlast == float(T[-1]))
+            if not ok:
+                ctx.violation(("division/last-grid-time" + ("/delay+volume" if kw.get("delay") else "")) if label == "last step" else "division/" + label,
+                              "cycle %g on a grid of step %g to %g (%s): the volume model reports division at %s; the result is flagged divided=%s and ends at %g"
+                              % (cycle, dt, tend, kw or "plain", tdiv, divided, tlast), case)
+                if not kw.get("delay"):
+                    return
+                continue
+            ctx.count("division_timing_cases")
+
+
 def run(ctx):
     rng = ctx.rng
     nnet, nseeds = (24, 3) if ctx.quick() else (300, 15)
@@ -317,6 +361,7 @@ def run(ctx):
     nruns = 2500 if ctx.quick() else 150000
     for k, V in enumerate([0.25, 2.0, 4.5]):
         scaled_cme(ctx, FINITE[k % 3 if k < 3 else 0], V, nruns, 7000 * ctx.seed + 11 * k)
+    division_at_the_last_grid_time(ctx)
 
 
 def replay(ctx, obj):
